@@ -85,7 +85,41 @@ def _tag(line, out):
     return w[0]
 
 
+HARDENING_AUDIT = {
+    "1 numeric magnitudes": "128-bit values: 0, +-1, both types' bounds, +-2^63, +-2^64 and +-1 around them, 2^k+-2, 10^k+-1, "
+                            "hi in {0, all ones} with any lo, rounding ties of float64(lo) and of the sum; uint64 words: 1, "
+                            "Max-1, 2^31/2^32/2^53/2^63 +-1, 10^k+-1; floats: 2^k and 10^k with neighbours over the whole "
+                            "range, integer +-1/2, subnormals, largest finite, -0, NaN, Inf, decimal forms of the bounds; "
+                            "big.Int: word-count boundaries, 10^k+-1, far out of range",
+    "2 size thresholds": "literals with 1..1025 (rarely 5000) digits in bases 2/8/10/16 around 9/10, 16/17, 19/20, 32/33, 38-40, "
+                         "64/65, 128/129, 256/257, 1000; big.Int with exactly 1-6, 8, 9, 16, 17, 32, 33, 64, 65, 1000 words and "
+                         "an odd number of 32-bit words; Format widths / precisions 45, 64, 65, 128-130, 140, 256, 300",
+    "3 rare entry points": "every exported conversion function of uint128.go / int128.go is called: From64, FromUint64, "
+                           "FromFloat64, FromBigInt, FromString, FromStringNoCheck, FromComponents, Components, IsZero, "
+                           "ToBigInt(dst), AsBigInt, AsBigFloat, AsFloat64, Is*/As* (7), AbsUint128, String, Format, Scan, "
+                           "MarshalText/JSON/YAML, UnmarshalText/JSON/YAML, Float64(), Int64(); FromRand is not covered by "
+                           "the property text and is not called",
+    "4 callback outcomes": "yaml unmarshal callback: stores, stores nothing, returns a fresh / sentinel / EOF error, panics "
+                           "(string, error, typed nil pointer); fmt.ScanState whose Token fails (EOF, unexpected EOF, "
+                           "sentinel) or delivers the token: the receiver must be untouched unless the load succeeds",
+    "5 aliasing and reuse": "ToBigInt into fresh, emptied-wide, 1/2/3/5/40-word, negative, all-ones destinations and into the "
+                            "result of another value's ToBigInt, twice; AsBigInt results mutated (words flipped in place) then "
+                            "fresh results and the package constants re-checked; FromBigInt's argument unchanged; "
+                            "MarshalText result mutated; receivers reused after an error, then twice",
+    "6 shapes": "pre-filled struct / pointer / slice / map containers (json, yaml), null into pointer, **T, json.Decoder stream "
+                "into one variable, array element; Scan of several tokens with the rest left readable",
+    "7 oracle independence": "values built / read through injected word accessors (not FromComponents / Components / IsZero); "
+                             "judged with math/big, the words, the hardware (f64) and the Lean model only; texts printed for "
+                             "unsupported verbs and the value accompanying an error are not compared",
+    "8 hangs and crashes": "every line runs under a 4 s deadline (answered `hang`, stream skipped after two); panics in the "
+                           "line's goroutine become `panic`; stream timeout 300 s in the quick tier",
+    "9 no false alarms": "no error texts, no unsupported-verb texts, no value-with-error, no struct layout; both controls "
+                         "silent",
+}
+
+
 def run(ctx):
+    ctx.extra["hardening_audit"] = HARDENING_AUDIT
     ctx.modelled += [
         "GoSem.F64 (binary64 as exact rationals rounded once per operation) is validated against the hardware by the "
         "f64 area of this check; math.Mod and math.Nextafter are modelled by their mathematical definition",
@@ -132,7 +166,7 @@ def run(ctx):
         canon = _canon_no_consts
         ctx.assumptions.append("the white-box accessor for the private float constants did not compile against this "
                                "tree; the `consts` line is not compared (black-box build, tag nooverlay)")
-    tmo = 300 if ctx.tier == "quick" else 900   # a looping mutant is answered `hang` after 20 s per line by the harness
+    tmo = 300 if ctx.tier == "quick" else 900   # a looping mutant is answered `hang` after 4 s per line by the harness
     ctx.diff(area="conv", driver="drv_c02", n={"quick": 200000, "thorough": 6000000},
              trivial=lambda l, o: l == "consts" and canon is not None, tagger=_tag, canon=canon, timeout=tmo,
              theorem="C02.* (model = specification: exact value, truncation, saturation, grammar); impl != model on "
